@@ -320,10 +320,12 @@ def _update_rule_references(rules, extends):
         if isinstance(rule, (ex.Class, ex.Rule)):
             rule_names.add(rule.name)
 
-    if extends is not None:
+    # Rules may be inherited from any ancestor.
+    while extends is not None:
         for stmt in extends.body:
             if hasattr(stmt, 'name'):
                 rule_names.add(stmt.name)
+        extends = extends.extends
 
     def check_refs(node):
         if isinstance(node, Ref) and node.name in rule_names and not node.is_local:
